@@ -43,7 +43,7 @@ var patCatalogue = []struct {
 	{"struct{ $*_ }", false}, {"switch $x { $*_ }", true}, {"switch { $*_ }", false}, {"$x.($t)", true},
 	{"switch $x.(type) { $*_ }", false}, {"switch $y := $x.(type) { $*_ }", false}, {"-$x", true}, {"!$x", true}, {"&$x", true}, {"<-$x", true},
 	{"$x; $y", false}, {"$a = $b; $c = $d", false}, {"probe($a); probe($b)", false}, {"_ = $x; $*_", true},
-	{"$x, $y", true}, {"$a, $b, $c", false}, {"1, $x", true},
+	{"$x, $y", true}, {"$y, $x", true}, {"$a, $b, $c", false}, {"1, $x", true},
 	{"func $f() {}; func $g() {}", false}, {"var $a $t; var $b $t", false},
 	{"import $_", false}, {"$x...", false}, {"...$t", false}, {";", false},
 }
@@ -110,6 +110,40 @@ func genRuleSet(rng *rand.Rand, pats []patInfo, setIdx int) (files map[string]st
 		if p.X {
 			xs = append(xs, p)
 		}
+	}
+	// targeted sets first: shapes that expose a known class of dispatch defects
+	//  0: two expression-list rules, the first accepts an early sub-match and rejects the last one
+	//  1: the same with statement lists in a multi-match bucket and a single-node rule in between
+	targeted := [][][3]string{
+		{{"$y, $x", "const", "a"}, {"$y, $x", "", "b"}, {"$f($*args)", "", "c"}},
+		{{"_ = $x; $*_", "const", "a"}, {"$x; $y", "", "b"}, {"{ $*_ }", "live", "c"}, {"{ $*_ }", "", "d"}},
+	}
+	if setIdx < len(targeted) {
+		var sb strings.Builder
+		name := fmt.Sprintf("rules%d_t.go", setIdx)
+		sb.WriteString("package gorules\n\nimport \"github.com/quasilyte/go-ruleguard/dsl\"\n\n")
+		line := 5
+		for _, tr := range targeted[setIdx] {
+			var pi *patInfo
+			for i := range pats {
+				if pats[i].Src == tr[0] {
+					pi = &pats[i]
+				}
+			}
+			if pi == nil {
+				continue
+			}
+			group := fmt.Sprintf("t%d_%s", setIdx, tr[2])
+			where := ""
+			if tr[1] != "" {
+				where = ".Where(" + filterSrc[tr[1]] + ")"
+			}
+			sb.WriteString("func " + group + "(m dsl.Matcher) {\n\tm.Match(`" + tr[0] + "`)" + where + ".Report(`" + group + "`)\n}\n\n")
+			rules = append(rules, ruleDesc{Idx: len(rules), Group: group, Line: line + 1, File: name, Src: pi.Src, Tag: pi.Tag, Filter: tr[1], pat: pi.pat})
+			line += 4
+		}
+		files[name] = sb.String()
+		return files, []string{name}, rules
 	}
 	nfiles := 1 + rng.Intn(3)
 	for fi := 0; fi < nfiles; fi++ {
